@@ -42,7 +42,11 @@ CHECKS = {
              "user names are rewritten to context lookups (builtins only as "
              "default); that Scope layers local over shared root.",
         note="Structural necessary conditions; the rendered text of concrete "
-             "nestings is not computed.  dict semantics of CPython trusted."),
+             "nestings is not computed.  dict semantics of CPython trusted.  "
+             "Also decided: the tal:on-error handler restores the local "
+             "variables from a per-node snapshot (the straight-line restore "
+             "code is skipped by the failure); scopes opened for lambda / "
+             "comprehension variables are copies closed on every exit."),
     "C02": dict(
         technique="taint analysis over all syntactic paths of the embedded "
                   "escape routine; sink table by abstract interpretation of "
@@ -103,7 +107,9 @@ CHECKS = {
              "the only source rewrite is CR/CRLF->LF outside XML mode.",
         note="Trusted: sre finditer semantics.  Not decided: that the tag "
              "sub-regexes dissect every tag the way a reader expects "
-             "(value-level); '<!--?' stripping."),
+             "(value-level); '<!--?' stripping.  Known findings: text "
+             "between attributes that the attribute regex skips, and "
+             "attributes inside an end tag, are not reproduced."),
     "C04": dict(
         technique="constant-table comparison; abstract interpretation of the "
                   "pipe emitter (try/except nesting); path enumeration of "
@@ -163,7 +169,11 @@ CHECKS = {
              "macro access passes through cook_check.",
         note="NECESSARY CONDITIONS ONLY: equality of the rendered text with "
              "the hand-inlined template (the property's main clause) is "
-             "value-level and not decided."),
+             "value-level and not decided.  Also decided: a filler writes to "
+             "the stream it is called with; the merge of globals after a "
+             "macro call is unconditional; render() does not seed the scope "
+             "with a builtin symbol's name.  Known finding: fillers stored "
+             "in the caller's scope are not removed after the call."),
     "C10": dict(
         technique="emission-tree rules for the i18n emitters; package-wide "
                   "census of translate(...) call fragments (sibling "
@@ -185,8 +195,12 @@ CHECKS = {
              "the placeholder in the enclosing stream and duplicates/strays "
              "rejected; that message objects are offered to translate before "
              "str() on all paths; attribute translation wiring.",
-        note="simple_translate's substitution regex and the translation "
-             "function's own behaviour are not decided."),
+        note="Also decided: the encoding wrapper installed by render() "
+             "forwards every translate keyword; every generated function "
+             "with its own i18n parameters defines its own conversion "
+             "helpers; simple_translate substitutes by mapping membership "
+             "(not truthiness).  simple_translate's substitution regex and "
+             "the translation function's own behaviour are not decided."),
     "C12": dict(
         technique="structural rules on the error plumbing: insertion point of "
                   "token references, def-use of the source text across "
@@ -203,9 +217,16 @@ CHECKS = {
              "through first, re-types only Exceptions, returns output only "
              "on the normal path, and that the decorated class derives from "
              "(original class, RenderError) with args and __dict__ copied.",
-        note="Message layout (ExceptionFormatter) is not decided.  Known "
-             "finding: entity decoding before the reference shortens the "
-             "recorded extent (expressions containing &lt; etc.)."),
+        note="Also decided: every generated function (render, macro, slot "
+             "filler) has its own handler and token; frames of a failure "
+             "handled by tal:on-error are dropped; the formatter emits "
+             "Expression/Filename/Location for every frame on every path; "
+             "the module cache key carries the whole file name (a cached "
+             "module's __filename is the template's); entity decoding "
+             "returns Tokens.  The text of the source-marker lines is not "
+             "decided.  Known finding: entity decoding before the reference "
+             "shortens the recorded extent (expressions containing &lt; "
+             "etc.)."),
     "C11": dict(
         technique="data-dependence analysis of Token methods against their "
                   "position contracts; intra-procedural def-use chains of "
@@ -221,12 +242,16 @@ CHECKS = {
              "shortens the text before splitting, that user-reachable "
              "failures are TemplateError subclasses (no assert on "
              "template-derived data), and that _cook stamps the file name.",
-        note="Not decided: line/column arithmetic of Token.location, and "
-             "that a valid template is never rejected.  Chains are followed "
-             "inside one function (parameters are assumed to be faithful "
-             "tokens).  Known findings: split_parts drift after ';;', "
-             "KeyError / LookupError for undeclared prefixes / unknown "
-             "expression types."),
+        note="Also decided: Token.location as a closed form over the count "
+             "and last index of '\\n' before the offset; the names stored in "
+             "the (namespace, name) attribute table keep their position; "
+             "token.pos/.source are written by Token only.  'A valid "
+             "template is never rejected' only through necessary conditions "
+             "(DOTALL statement regexes, guarded stack indices, parse sites "
+             "converting SyntaxError).  Chains are followed inside one "
+             "function (parameters are assumed to be faithful tokens).  "
+             "Known findings: KeyError / LookupError for undeclared prefixes "
+             "/ unknown expression types."),
     "C18": dict(
         technique="alignment analysis of positionally paired collections "
                   "(parameter effects of every callee between origin and "
